@@ -1,8 +1,10 @@
 """Tagged harness branches of spec/Split.tla / SplitCT.tla -> real objects."""
+import itertools
 import signal
 import threading
 
 NONE = -1000
+CAP = 5000        # no scenario yields that many results: a run that never stops yielding is cut here
 
 
 def tag(b, k, p):
@@ -300,6 +302,6 @@ def run_split(brs, n, bs, copy_buf=True, runs=1, flow="iter", values=None):
     outs = []
     for _ in range(runs):
         with deadline(3):
-            outs.append([untag(v) for v in s.run(make_flow(vals, flow))])
+            outs.append([untag(v) for v in itertools.islice(s.run(make_flow(vals, flow)), CAP)])
         bld.hreset()
     return outs[0] if runs == 1 else outs
